@@ -57,6 +57,7 @@ struct inputs {
 	uint8_t touch[3];    /* empty CPU k had (and lost) a thread in the past */
 	struct evin e[NEV];  /* the event(s) */
 	uint8_t finished;    /* emu->finished (model_ovni_finish obligation) */
+	int64_t fclk[2];     /* FLUSHPAIR: corrected clocks of the OF[ / OF] markers */
 };
 V_INPUTS;
 
